@@ -1881,6 +1881,16 @@ impl<'a, E: quiver_core::effects::Effect> Compiler<'a, E> {
             );
         }
 
+        // A match that can fail on a value whose origin is not tracked (the verdict of an earlier
+        // match, a computed value) is a further reason for the condition to fail: the branch
+        // failing no longer implies that an earlier, tracked test failed, so no complement.
+        if matches!(value_provenance, Provenance::Unknown)
+            && self.contains_nil(result_type)
+            && let Some(n) = narrowing.as_mut()
+        {
+            n.disable();
+        }
+
         // Record the narrowing for complement narrowing in blocks.
         // This must happen even when result_type is nil, so that subsequent branches
         // know the value is NOT nil (complement narrowing).
